@@ -302,22 +302,22 @@ harnesses! {
         #[cfg_attr(kani, kani::stub(<log4rs::encode::pattern::PatternEncoder as log4rs::encode::Encode>::encode, crate::util::stub_pattern_encode_cut))]
         #[cfg_attr(kani, kani::stub(log4rs::encode::pattern::PatternEncoder::new, crate::util::stub_pattern_new_cut))]
     }
-    #[kani::unwind(8)]
+    #[kani::unwind(10)]
     fn roll_plan_post_1() { body(Mode::Plan, false, 1, false, false) }
-    #[kani::unwind(8)]
+    #[kani::unwind(10)]
     fn roll_plan_post_1_witness() { body(Mode::Plan, false, 1, false, true) }
-    #[kani::unwind(8)]
+    #[kani::unwind(10)]
     fn roll_plan_pre_1() { body(Mode::Plan, true, 1, false, false) }
-    #[kani::unwind(8)]
+    #[kani::unwind(10)]
     fn roll_plan_post_2() { body(Mode::Plan, false, 2, false, false) }
-    #[kani::unwind(8)]
+    #[kani::unwind(10)]
     fn roll_plan_pre_2() { body(Mode::Plan, true, 2, false, false) }
-    #[kani::unwind(8)]
+    #[kani::unwind(10)]
     fn roll_plan_post_3_restart() { body(Mode::Plan, false, 3, true, false) }
-    #[kani::unwind(8)]
+    #[kani::unwind(10)]
     fn roll_size_2() { body(Mode::Size, false, 2, false, false) }
-    #[kani::unwind(8)]
+    #[kani::unwind(10)]
     fn roll_size_3_restart() { body(Mode::Size, false, 3, true, false) }
-    #[kani::unwind(8)]
+    #[kani::unwind(10)]
     fn roll_startup_2() { body(Mode::StartUp, true, 2, false, false) }
 }
